@@ -27,9 +27,7 @@ Theorem C19_from_init : forall ds ops, 1 <= ds ->
   let r := fst (ring_run (ring_init ds) ops) in
   let q0 := {| q_items := []; q_cap := ds; q_ovr := false |} in
   ring_inv r /\ snd (ring_run (ring_init ds) ops) = snd (queue_run q0 ops) /\ ring_abs r = fst (queue_run q0 ops).
-Proof.
-  intros ds ops H. exact (run_refines ops (ring_init ds) (init_inv ds H)).
-Qed.
+Proof. exact from_init. Qed.
 Print Assumptions C19_from_init.
 
 (* size / empty / full report the queue's state; never more than capacity elements *)
